@@ -338,9 +338,11 @@ const (
 	cCoolOff
 	cPrice
 	cAdmin
+	cConsistent     // a field of the stored position is compared with what the message's ids say, standing alone (or ||-joined)
+	cWeakConsistent // the same comparison &&-joined with another test: rejects only when BOTH mismatch
 )
 
-var clsNames = []string{"other", "ownerEq", "esmExecuted", "breakerEnabled", "coolOff", "priceLookup", "adminOnly"}
+var clsNames = []string{"other", "ownerEq", "esmExecuted", "breakerEnabled", "coolOff", "priceLookup", "adminOnly", "consistent", "weakConsistent"}
 
 type Item struct {
 	kind, cls int
@@ -351,6 +353,7 @@ type Item struct {
 	line      int
 	fn        string
 	detail    string
+	tag       string // consistency guards: the field (path) of the stored position that is compared
 }
 
 type taint map[string]bool
@@ -464,7 +467,7 @@ func (w *walker) taintOf(fr *frame, e ast.Expr) taint {
 				if signerOf[strings.TrimPrefix(k, "msg:")] == x.Sel.Name {
 					r["signer"] = true
 				}
-			} else if k == "esm" || k == "breaker" {
+			} else if k == "esm" || k == "breaker" || k == "pos" {
 				r[k] = true
 			}
 		}
@@ -752,6 +755,62 @@ func (w *walker) classify(fr *frame, c ast.Expr) (int, string) {
 	return cOther, ""
 }
 
+func splitAnd(c ast.Expr) []ast.Expr {
+	for {
+		p, ok := c.(*ast.ParenExpr)
+		if !ok {
+			break
+		}
+		c = p.X
+	}
+	if b, ok := c.(*ast.BinaryExpr); ok && b.Op == token.LAND {
+		return append(splitAnd(b.X), splitAnd(b.Y)...)
+	}
+	return []ast.Expr{c}
+}
+
+// posField: e is `p.F…` with p a variable holding a stored position record: returns the field path
+func (w *walker) posField(fr *frame, e ast.Expr) (string, bool) {
+	ch := selChain(e)
+	if len(ch) < 2 {
+		return "", false
+	}
+	if !fr.env[ch[0]].has("pos") {
+		return "", false
+	}
+	return strings.Join(ch[1:], "."), true
+}
+
+// consistency: the disjunct compares a field of the stored position with something else by `!=`.
+// strong: the comparison stands alone; weak: it is &&-joined with other tests. Returns the compared fields.
+func (w *walker) consistency(fr *frame, d ast.Expr) (strong bool, fields []string) {
+	atoms := splitAnd(d)
+	for _, a := range atoms {
+		for {
+			p, ok := a.(*ast.ParenExpr)
+			if !ok {
+				break
+			}
+			a = p.X
+		}
+		b, ok := a.(*ast.BinaryExpr)
+		if !ok || b.Op != token.NEQ {
+			continue
+		}
+		fx, okx := w.posField(fr, b.X)
+		fy, oky := w.posField(fr, b.Y)
+		if okx == oky { // neither, or a comparison of two position fields
+			continue
+		}
+		if okx {
+			fields = append(fields, fx)
+		} else {
+			fields = append(fields, fy)
+		}
+	}
+	return len(atoms) == 1, fields
+}
+
 func splitOr(c ast.Expr) []ast.Expr {
 	for {
 		p, ok := c.(*ast.ParenExpr)
@@ -943,6 +1002,9 @@ func (w *walker) handleAssign(fr *frame, lhs []ast.Expr, rhs []ast.Expr, next as
 				special = taint{"esm": true}
 			case "GetKillSwitchData":
 				special = taint{"breaker": true}
+			}
+			if posGetters[name] && name != "IterateOrdersByOrderer" {
+				special = taint{"pos": true}
 			}
 			errVar := ""
 			if len(lhs) > 0 {
@@ -1159,6 +1221,18 @@ func (w *walker) walkIf(fr *frame, s *ast.IfStmt) {
 			if det == "" {
 				det = src(d)
 			}
+			if c == cOther {
+				if strong, fields := w.consistency(fr, d); len(fields) > 0 {
+					cc := cWeakConsistent
+					if strong {
+						cc = cConsistent
+					}
+					for _, f := range fields {
+						w.emit(fr, Item{kind: kGuard, cls: cc, line: line(s), detail: src(d), tag: f})
+					}
+					continue
+				}
+			}
 			w.emit(fr, Item{kind: kGuard, cls: c, line: line(s), detail: det})
 		}
 		// the failing body is reverted with the message; continue with the else branch on the same path
@@ -1232,7 +1306,7 @@ type Handler struct {
 	items                               []Item
 }
 
-var handlerModules = []string{"vault", "locker", "lend", "liquidity", "auctionsV2", "esm", "liquidation", "liquidationsV2"}
+var handlerModules = []string{"vault", "locker", "lend", "liquidity", "auctionsV2", "esm", "liquidation", "liquidationsV2", "auction"}
 
 func extractHandlers() []Handler {
 	var out []Handler
@@ -1938,9 +2012,9 @@ func main() {
 
 	var b strings.Builder
 	b.WriteString("/-! GENERATED by extract/guards from the comdex source tree — do not edit; regenerated on every run.\n")
-	b.WriteString("Item codes: kind 0 guard 1 write 2 posRead 3 okExit 4 swallow; cls 0 other 1 ownerEq 2 esmExecuted 3 breakerEnabled\n4 coolOff 5 priceLookup 6 adminOnly. -/\n")
+	b.WriteString("Item codes: kind 0 guard 1 write 2 posRead 3 okExit 4 swallow; cls 0 other 1 ownerEq 2 esmExecuted 3 breakerEnabled\n4 coolOff 5 priceLookup 6 adminOnly 7 consistent (tag = compared position field) 8 weakConsistent (&&-joined). -/\n")
 	b.WriteString("namespace Comdex.Gen.Guards\n\n")
-	b.WriteString("structure Item where\n  kind : Nat\n  cls : Nat\n  cond : Bool\n  path : List Nat\n  keyed : Bool\n  wb : Bool\n  line : Nat\n  fn : String\n  detail : String\n  deriving Repr, DecidableEq\n\n")
+	b.WriteString("structure Item where\n  kind : Nat\n  cls : Nat\n  cond : Bool\n  path : List Nat\n  keyed : Bool\n  wb : Bool\n  line : Nat\n  fn : String\n  detail : String\n  tag : String\n  deriving Repr, DecidableEq\n\n")
 	b.WriteString("structure Handler where\n  module : String\n  name : String\n  msgType : String\n  signer : String\n  file : String\n  line : Nat\n  items : List Item\n  deriving Repr\n\n")
 	b.WriteString("structure WasmArm where\n  chain : String\n  list : String\n  idx : Nat\n  addr : String\n  deriving Repr, DecidableEq\n\n")
 	b.WriteString("structure WasmHandler where\n  variant : String\n  method : String\n  arms : List WasmArm\n  guardFirst : Bool\n  otherChainsOpen : Bool\n  line : Nat\n  deriving Repr\n\n")
@@ -1969,7 +2043,7 @@ func main() {
 			if it.kind == kGuard {
 				det = clsNames[it.cls] + ": " + det
 			}
-			fmt.Fprintf(&b, "  ⟨%d, %d, %s, %s, %s, %s, %d, %s, %s⟩%s\n", it.kind, it.cls, bl(it.cond), natList(it.path), bl(it.keyed), bl(it.wb), it.line, q(it.fn), q(det), sep)
+			fmt.Fprintf(&b, "  ⟨%d, %d, %s, %s, %s, %s, %d, %s, %s, %s⟩%s\n", it.kind, it.cls, bl(it.cond), natList(it.path), bl(it.keyed), bl(it.wb), it.line, q(it.fn), q(det), q(it.tag), sep)
 		}
 		b.WriteString("] }\n\n")
 	}
